@@ -153,9 +153,14 @@ func runScenario(sc Scenario, dir string) ([]verif.Event, *RunResult) {
 		if sc.Lonely {
 			for j := 0; j < 2; j++ {
 				key, body := r.makeBody(r.rng, 90+ph, j)
-				rec := r.record(key, "lonely", body, 0, "HTTP")
-				hlib.Emit("HPub", "key", key, "via", "HTTP", "t", "lonely", "defer", 0, "now", time.Now().UnixNano())
-				if st, _, err := nd.post("/pub?topic=lonely", body); err == nil && st == 200 {
+				// every other one deferred: its delay will long have run out when the topic gets its first channel
+				dms, qs := 0, ""
+				if j == 1 {
+					dms, qs = 40, "&defer=40"
+				}
+				rec := r.record(key, "lonely", body, dms, "HTTP")
+				hlib.Emit("HPub", "key", key, "via", "HTTP", "t", "lonely", "defer", dms, "now", time.Now().UnixNano())
+				if st, _, err := nd.post("/pub?topic=lonely"+qs, body); err == nil && st == 200 {
 					r.markAcked([]*pubRec{rec})
 				}
 			}
